@@ -12,7 +12,18 @@ as needed, nothing outside the box touched, every cell of the box showing what t
 last frame alone shows, and — kitty style — the image placements left on the screen, with
 kitty's delete commands interpreted (lib/TermPlace.v), being exactly those of the last
 frame: no stale placement of an earlier frame) and the documented size rule (raised <-> rule violated, nothing
-written)."""
+written).
+
+Round 4.  (a) The terminal is the ACTIVE TERMINAL: "real_term" cases run the library's real
+get_terminal_size() on a pty whose window size is set with TIOCSWINSZ while COLUMNS / LINES in the
+environment are absent / equal / larger / smaller / garbage; the model (model/DrawEnv.v) takes the
+size from the environment record by its own get_terminal_size, the oracle judges the rule and the
+final state against the real window.  (b) Animations ENDED BY Ctrl-C: the k-th write of the
+animation raises KeyboardInterrupt after j characters (every kind of write: first frame, later
+frames, cursor moves, clearing; j at 0, inside escape sequences / graphics payloads, at the end) or
+a sleep between two frames does; the model stream is model/DrawCut.v's, the oracle
+model/DrawCutTie.v's executable CutFinal (between two frames: the full final-state predicate
+against the last complete frame)."""
 from __future__ import annotations
 
 import core
@@ -20,9 +31,11 @@ import lexer
 import renderlib as R
 
 LEVEL = "proof"
-EXTRA_TARGETS = ["model/DrawTie.vo"]
+EXTRA_TARGETS = ["model/DrawTie.vo", "model/DrawEnv.vo", "model/DrawCutTie.vo"]
 HEADER = ("From Coq Require Import List ZArith.\nImport ListNotations.\n"
-          "From TI Require Import lib.Term lib.RectCheck model.Padding model.Draw model.DrawTie.\nOpen Scope Z_scope.\n")
+          "From TI Require Import lib.Term lib.RectCheck model.Padding model.Draw model.DrawTie model.DrawEnv "
+          "model.DrawCut model.DrawCutTie.\nOpen Scope Z_scope.\n")
+HANDLER = {"new": "[TSgr0]", "block": "[]", "kitty": "[TSt; TSt; TKittyEnd]", "iterm2": "[TSt; TSt]"}
 FILL_T = {"space": "(Some GSpace)", "star": "(Some (GOther 42))", "empty": "None"}
 
 
@@ -117,6 +130,152 @@ def gen_old(rng):
         if rng.random() < 0.3:
             c["args"]["compress"] = rng.choice([0, 1, 4, 9])
     return c
+
+
+ENV_KINDS = ["absent", "equal", "larger", "smaller", "columns-only", "lines-only", "garbage", "zero"]
+
+
+def env_of(kind, W, H, rng=None):
+    """COLUMNS / LINES of the process environment relative to the real W x H window"""
+    up = (rng.randint(1, 40), rng.randint(1, 30)) if rng else (7, 5)
+    if kind == "absent":
+        return {"COLUMNS": None, "LINES": None}
+    if kind == "equal":
+        return {"COLUMNS": str(W), "LINES": str(H)}
+    if kind == "larger":
+        return {"COLUMNS": str(W + up[0]), "LINES": str(H + up[1])}
+    if kind == "smaller":
+        return {"COLUMNS": str(max(1, W - 2)), "LINES": str(max(1, H - 2))}
+    if kind == "columns-only":
+        return {"COLUMNS": str(W + up[0]), "LINES": None}
+    if kind == "lines-only":
+        return {"COLUMNS": None, "LINES": str(H + up[1])}
+    if kind == "garbage":
+        return {"COLUMNS": "wide", "LINES": ""}
+    return {"COLUMNS": "0", "LINES": "-3"}
+
+
+def with_real_term(c, kind, rng=None):
+    W, H = c["term_size"]
+    c = dict(c)
+    c["real_term"] = {"window": [W, H], "env": env_of(kind, W, H, rng), "kind": kind}
+    return c
+
+
+def gen_real(rng):
+    c = gen_new(rng) if rng.random() < 0.5 else gen_old(rng)
+    return with_real_term(c, rng.choice(ENV_KINDS[1:4] * 3 + ENV_KINDS), rng)
+
+
+def real_term_grid(quick):
+    """sizes around the REAL window under every relation of the environment variables to it: both
+    APIs, still and animated, padded / rendered width and height at window - 1, window, window + 1"""
+    cs = []
+    kinds = ["larger", "smaller", "absent", "equal"] if quick else ENV_KINDS
+    for kind in kinds:
+        deltas = (0, 1) if quick and kind in ("absent", "equal") else (-1, 0, 1)
+        for frames in (1, 2):
+            for axis in "wh":
+                for delta in deltas:
+                    tw, th = 6, 4
+                    pad = ({"kind": "exact", "l": 0, "t": 0, "r": 0, "b": th + delta - 1} if axis == "h"
+                           else {"kind": "exact", "l": 0, "t": 0, "r": tw + delta - 2, "b": 0})
+                    cs.append(with_real_term(
+                        {"api": "new", "term_size": [tw, th], "size": [2, 1], "frames": frames, "frame_kind": "text",
+                         "seed": frames, "padding": pad, "fill": "space", "animate": True, "loops": 1, "cache": False,
+                         "check_size": True, "allow_scroll": False, "tty": (delta + frames) % 2 == 0, "grid": True}, kind))
+                    tw, th = 8, 5
+                    size = [2, th + delta] if axis == "h" else [tw + delta, 1]
+                    cs.append(with_real_term(
+                        {"api": "old", "style": "block", "term_size": [tw, th], "img": {"n_frames": frames, "size": [2, 2], "seed": frames},
+                         "cells": [2, 1], "force_size": size, "pad": [1, 1], "ha": 0, "va": 0, "animate": True, "repeat": 1,
+                         "cached": False, "scroll": False, "check_size": True, "tty": (delta + frames) % 2 == 1,
+                         "args": {}, "grid": True}, kind))
+        # relative padding is resolved against the same size; pad_width / pad_height validation
+        cs.append(with_real_term(
+            {"api": "new", "term_size": [9, 7], "size": [3, 2], "frames": 2, "frame_kind": "text", "seed": 4,
+             "padding": {"kind": "aligned", "W": 0, "H": -2, "ha": 1, "va": 1}, "fill": "star", "loops": 1, "tty": True}, kind))
+        cs.append(with_real_term(
+            {"api": "old", "style": "block", "term_size": [10, 8], "img": {"n_frames": 2, "size": [4, 4], "seed": 1},
+             "cells": [4, 2], "pad": [0, -1], "ha": 2, "va": 2, "repeat": 1, "tty": True, "args": {}}, kind))
+        cs.append(with_real_term(
+            {"api": "old", "style": "block", "term_size": [10, 8], "img": {"n_frames": 2, "size": [4, 4], "seed": 1},
+             "cells": [4, 2], "pad": [11, 9], "ha": 0, "va": 0, "repeat": 1, "check_size": False, "scroll": True,
+             "tty": False, "args": {}}, kind))
+    return cs
+
+
+def gen_cut(rng):
+    """an accepted animation and an interruption point"""
+    if rng.random() < 0.5:
+        c = gen_new(rng)
+        c["frames"] = rng.choice([2, 2, 3, 4])
+        c["size"] = [rng.randint(1, 5), rng.randint(1, 4)]
+        c["padding"] = gen_padding(rng, c["size"][0], c["size"][1], *c["term_size"], exceed=0.0)
+        c["animate"] = True
+    else:
+        c = gen_old(rng)
+        c["img"]["n_frames"] = rng.choice([2, 2, 3, 4])
+        c["animate"] = True
+        c.pop("force_size", None)
+        W, H = c["pad"]
+        c["pad"] = [min(W, c["term_size"][0]), min(H, c["term_size"][1])]
+    c["tty"] = rng.random() < 0.8
+    it = {"sel": rng.randrange(64)}
+    r = rng.random()
+    if r < 0.2:
+        it["between"] = True
+    elif r < 0.3:
+        it["j"] = 0
+    elif r < 0.4:
+        it["frac"] = [1, 1]
+    elif r < 0.5:
+        it["j"] = rng.randint(1, 12)   # inside the first escape sequences / the first line
+    else:
+        den = rng.choice([2, 3, 5, 7, 11, 97])
+        it["frac"] = [rng.randint(1, den - 1), den]
+    c["interrupt"] = it
+    return c
+
+
+def cut_corpus(quick):
+    """every kind of interruption point, both APIs, every style's handler: the first frame (cut
+    inside a graphics payload, inside the key list, inside a CSI, at 0 and at the end), the cursor
+    moves, the clearing write, later frames, between frames"""
+    cs = []
+    ex = {"kind": "exact", "l": 1, "t": 1, "r": 0, "b": 2}
+    fracs = [{"j": 0}, {"frac": [1, 2]}, {"frac": [1, 1]}] if quick else \
+        [{"j": 0}, {"j": 1}, {"j": 3}, {"frac": [1, 4]}, {"frac": [1, 2]}, {"frac": [5, 7]}, {"frac": [1, 1]}]
+    for kind, clear in (("block", ""), ("text", "ech"), ("gfx", "")):
+        nw = 2 + 2 * (3 if clear else 2)
+        for k in range(nw):
+            for f in (fracs if kind == "block" or not quick else fracs[1:2]):
+                cs.append({"api": "new", "term_size": [9, 7], "size": [3, 2], "frames": 3, "frame_kind": kind, "seed": 1,
+                           "padding": ex, "fill": "star", "animate": True, "loops": 1, "cache": False, "tty": k % 3 != 2,
+                           "hide_cursor": k % 4 != 3, "clear": clear, "interrupt": dict(sel=k, **f)})
+        for n in (0, 1, 2):
+            cs.append({"api": "new", "term_size": [9, 7], "size": [3, 2], "frames": 3, "frame_kind": kind, "seed": 1,
+                       "padding": ex, "fill": "star", "animate": True, "loops": 1, "tty": True, "clear": clear,
+                       "interrupt": {"sel": n, "between": True}})
+    blk = {"n_frames": 3, "size": [4, 4], "seed": 1}
+    olds = [("block", {}, {}), ("kitty", {"kitty_version": [0, 30, 0]}, {"method": "lines"}),
+            ("kitty", {"kitty_version": [0, 25, 0]}, {"method": "whole"}),
+            ("iterm2", {"term": "konsole"}, {"method": "lines"}), ("iterm2", {"term": "wezterm"}, {"method": "whole"})]
+    for style, extra, args in olds:
+        nw = 2 + 2 * (3 if extra.get("kitty_version") == [0, 25, 0] else 2)
+        for k in range(nw):
+            for f in (fracs if k in (0, 2, 3) or not quick else fracs[1:2]):
+                c = {"api": "old", "style": style, "term_size": [10, 8], "img": blk, "cells": [2, 2], "pad": [4, 3],
+                     "ha": 1, "va": 0 if k % 2 else 1, "repeat": 1, "cached": False, "tty": k % 3 != 2, "args": dict(args),
+                     "interrupt": dict(sel=k, **f)}
+                c.update(extra)
+                cs.append(c)
+        for n in (0, 1):
+            c = {"api": "old", "style": style, "term_size": [10, 8], "img": blk, "cells": [2, 2], "pad": [4, 3],
+                 "ha": 1, "va": 1, "repeat": 1, "tty": True, "args": dict(args), "interrupt": {"sel": n, "between": True}}
+            c.update(extra)
+            cs.append(c)
+    return cs
 
 
 def corpus():
@@ -256,8 +415,71 @@ def is_wez(c):
     return c.get("style") == "iterm2" and c.get("term") == "wezterm" and not c.get("args", {}).get("mix", False)
 
 
-def case_term(c, r):
-    tw, th = c["term_size"]
+def env_term(c):
+    rt = c["real_term"]
+    W, H = rt["window"]
+
+    def var(v):
+        try:
+            return f"(Some {zz(int(v))})"
+        except (TypeError, ValueError):
+            return "None"
+    so = f"(Some ({W}, {H}))" if c.get("tty", True) else "None"
+    return (f"{{| e_window := Some ({W}, {H}); e_columns := {var(rt['env'].get('COLUMNS'))}; "
+            f"e_lines := {var(rt['env'].get('LINES'))}; e_stdout := {so} |}}")
+
+
+def cut_point(c, r):
+    """(Coq term of the interruption point, tokens delivered before the exception, tokens
+    written after it, description)"""
+    cut = r["cut"]
+    out = r["out"]
+    d = cut["delivered"]
+    tp, tq = toks(out[:d]), toks(out[d:])
+    new = c["api"] == "new"
+    if cut["between"]:
+        n = cut["sleep"]
+        pt = f"PNew (IBetween {n - 1})" if new else f"POld (OBetween {n})"
+        return pt, tp, tq, f"between frames (sleep call {n})"
+    part = toks(cut["part"])
+    ck = "None"
+    if part and part[-1][0] == "cut":
+        ck = "(Some " + {"csi": "CutCsi", "osc": "CutOsc", "apc": "CutApc"}[part[-1][1]] + ")"
+        part = part[:-1]
+    j = len(part)
+    k = cut["k"]
+    if new:
+        has_clear = bool(r.get("clear"))
+        per = 3 if has_clear else 2
+        if k == 0:
+            name, pt = "first frame", f"IFirst {j} {ck}"
+        elif k == 1:
+            name, pt = "cursor move after the first frame", f"ITop1 {j} {ck}"
+        else:
+            m, rr = divmod(k - 2, per)
+            which = (["IClear", "IFrame", "ITop"] if has_clear else ["IFrame", "ITop"])[rr]
+            name, pt = f"{which} of later frame {m}", f"{which} {m} {j} {ck}"
+        pt = f"PNew ({pt})"
+    else:
+        has_clear = c["style"] == "kitty" and tuple(c.get("kitty_version", (0, 30, 0))) <= (0, 25, 0)
+        per = 3 if has_clear else 2
+        if k < 2:
+            m, which = 0, ["OFrame", "OTop"][k]
+        else:
+            q, rr = divmod(k - 2, per)
+            m, which = q + 1, (["OClear", "OFrame", "OTop"] if has_clear else ["OFrame", "OTop"])[rr]
+        name, pt = f"{which} of frame {m}", f"POld ({which} {m} {j} {ck})"
+    return pt, tp, tq, f"write {k} ({name}) cut after {cut['j']} of {cut['len']} characters = {j} tokens, cut kind {ck}"
+
+
+def icase_term(c, r):
+    pt, tp, tq, _ = cut_point(c, r)
+    hnd = HANDLER["new" if c["api"] == "new" else c["style"]]
+    return (f"{{| i_c := {case_term(c, r, obs=tp + tq)}; i_pt := {pt}; i_np := {len(tp)}%nat; i_hnd := {hnd} |}}")
+
+
+def case_term(c, r, obs=None, env=False):
+    tw, th = (0, 0) if env else c["term_size"]
     anim, frames = frames_of(c, r)
     if c["api"] == "new":
         p = c["padding"]
@@ -281,18 +503,33 @@ def case_term(c, r):
         dyn = c.get("cells") is None and not c.get("force_size")
         oldk = c["style"] == "kitty" and tuple(c.get("kitty_version", (0, 30, 0))) <= (0, 25, 0)
         wez = is_wez(c) and anim
-    rows = sorted({0, th // 2, th - 1})
+    rh = c["term_size"][1]
+    rows = sorted({0, rh // 2, rh - 1})
     return ("{| " + "; ".join([
         f"d_kind := {kind}", f"d_tw := {tw}", f"d_th := {th}", f"d_cs := {b(c.get('check_size', True))}",
         f"d_scroll := {b(scroll)}", f"d_anim := {b(anim)}", f"d_hide := {b(hide)}", f"d_dyn := {b(dyn)}",
         f"d_fill := {fill}", f"d_w := {w}", f"d_h := {h}", f"d_clear := {lexer.coq_toks(clear)}",
         f"d_oldk := {b(oldk)}", f"d_wez := {b(wez)}", f"d_kitty := {b(c.get('style') == 'kitty')}",
         "d_frames := " + core.coq_list(frames, lexer.coq_toks),
-        f"d_obs := {lexer.coq_toks(toks(r['out']))}", f"d_raised := {b(r['raised'] == 1)}",
+        f"d_obs := {lexer.coq_toks(toks(r['out']) if obs is None else obs)}", f"d_raised := {b(r['raised'] == 1)}",
         "d_rows := " + core.coq_list(rows)]) + " |}")
 
 
 def describe(c):
+    return describe0(c) + describe_r4(c)
+
+
+def describe_r4(c):
+    s = ""
+    if c.get("real_term"):
+        rt = c["real_term"]
+        s += f" REAL terminal window={rt['window']} environment={rt['env']}"
+    if c.get("interrupt"):
+        s += f" interrupt={c['interrupt']}"
+    return s
+
+
+def describe0(c):
     if c["api"] == "new":
         return (f"new API: size={c['size']} frames={c['frames']}({c['frame_kind']}) loops={c.get('loops', 1)} cache={c.get('cache')} "
                 f"animate={c.get('animate', True)} padding={c['padding']} fill={c.get('fill')} term={c['term_size']} "
@@ -305,7 +542,13 @@ def describe(c):
 
 
 def explain(c, r):
-    text = HEADER + f"Set Printing Width 100000.\nEval vm_compute in (explain ({case_term(c, r)})).\n"
+    if r.get("cut"):
+        term = f"iexplain ({icase_term(c, r)})"
+    elif c.get("real_term"):
+        term = f"explain (env_case ({env_term(c)}) ({case_term(c, r, env=True)}))"
+    else:
+        term = f"explain ({case_term(c, r)})"
+    text = HEADER + f"Set Printing Width 100000.\nEval vm_compute in ({term}).\n"
     rc, out = core.coq_eval_file(f"c06_explain_{id(c)}", text)
     vals = core.parse_evals(out)
     return vals[0][:900] if vals else out[-300:]
@@ -337,29 +580,52 @@ def run(ctx):
     if ctx.replay:
         cases = [ctx.replay["replay"]["case"]]
     else:
-        n = 110 if ctx.quick else 2500
-        cases = corpus()
+        n = 100 if ctx.quick else 2500
+        cases = corpus() + real_term_grid(ctx.quick) + cut_corpus(ctx.quick)
         for _ in range(n):
             cases.append(gen_new(rng) if rng.random() < 0.5 else gen_old(rng))
+        for _ in range(24 if ctx.quick else 700):
+            cases.append(gen_real(rng))
+        for _ in range(40 if ctx.quick else 1500):
+            cases.append(gen_cut(rng))
     import time
     t_start = time.time()
     impl = core.run_impl_parallel("impl_c06.py", cases)
     t_impl = time.time() - t_start
-    terms, owner = [], []
+    groups = {"plain": ([], []), "env": ([], []), "cut": ([], [])}   # kind -> (terms, owners)
     failures, mismatches, errors = [], [], []
-    hist = {"api": {}, "kind": {}, "style": {}, "tty": {}, "frames": {}, "loops": {}, "raised": 0, "accepted": 0, "cache": {}, "style_args": {}, "kitty": {}, "size_rule_grid": 0}
+    hist = {"api": {}, "kind": {}, "style": {}, "tty": {}, "frames": {}, "loops": {}, "raised": 0, "accepted": 0, "cache": {}, "style_args": {},
+            "kitty": {}, "size_rule_grid": 0, "real_terminal": {}, "real_terminal_raised": 0, "real_terminal_accepted": 0,
+            "interrupted": {}, "interrupt_cut_kind": {}, "interrupt_not_applicable": 0}
     distinct = set()
     for i, (c, r) in enumerate(zip(cases, impl)):
         hist["api"][c["api"]] = hist["api"].get(c["api"], 0) + 1
         hist["size_rule_grid"] += bool(c.get("grid"))
         if "error" in r:
-            failures.append({"signature": core.sig(["raise", failure_class(c, {"size": [0, 0]})]),
+            failures.append({"signature": core.sig(["raise", failure_class(c, {"size": [0, 0]}), bool(c.get("interrupt")), bool(c.get("real_term"))]),
                              "what": f"draw() raised {r['error'][:300]} — {describe(c)}", "replay": {"case": c}})
             continue
         try:
             anim, frames = frames_of(c, r)
-            terms.append(case_term(c, r))
-            owner.append(i)
+            if r.get("cut"):
+                pt, _, _, _ = cut_point(c, r)
+                groups["cut"][0].append(f"ACut ({icase_term(c, r)})")
+                groups["cut"][1].append(i)
+                pk = pt.split("(")[1].split()[0].rstrip(")") + (" " + c.get("style", c.get("frame_kind")))
+                hist["interrupted"][pk] = hist["interrupted"].get(pk, 0) + 1
+                ck = "none" if r["cut"]["between"] else ("CutCsi" if "CutCsi" in pt else "CutApc" if "CutApc" in pt else "CutOsc" if "CutOsc" in pt else "token boundary")
+                hist["interrupt_cut_kind"][ck] = hist["interrupt_cut_kind"].get(ck, 0) + 1
+            elif c.get("real_term"):
+                groups["env"][0].append(f"AEnv ({env_term(c)}) ({case_term(c, r, env=True)})")
+                groups["env"][1].append(i)
+                k = c["real_term"].get("kind", "?")
+                hist["real_terminal"][k] = hist["real_terminal"].get(k, 0) + 1
+                hist["real_terminal_raised"] += r["raised"] == 1
+                hist["real_terminal_accepted"] += r["raised"] == 0
+            else:
+                hist["interrupt_not_applicable"] += bool(c.get("interrupt"))
+                groups["plain"][0].append(f"APlain ({case_term(c, r)})")
+                groups["plain"][1].append(i)
         except lexer.LexError as e:
             failures.append({"signature": core.sig(["lex", str(e)[:60]]), "what": f"unlexable output: {e} — {describe(c)}",
                              "replay": {"case": c}})
@@ -384,29 +650,63 @@ def run(ctx):
         hist["accepted"] += r["raised"] == 0
         if r["raised"] == 0 and anim and len(frames) >= 2:
             distinct.add(core.sig([c.get("padding", c.get("pad")), c.get("size", c.get("cells")), st, c["term_size"],
-                                   len(frames), c.get("tty", True), c.get("args"), c.get("term"), c.get("kitty_version")]))
+                                   len(frames), c.get("tty", True), c.get("args"), c.get("term"), c.get("kitty_version"),
+                                   (c.get("real_term") or {}).get("env"), c.get("interrupt")]))
+    # one pool of shards for the three kinds of cases (interleaved: the shards cost about the same)
+    terms, owner, gkind = [], [], []
+    for gname, (ts, ow) in groups.items():
+        terms += ts
+        owner += ow
+        gkind += [gname] * len(ts)
+    order = sorted(range(len(terms)), key=lambda x: (x * 7919) % max(1, len(terms)))
+    terms, owner, gkind = [terms[x] for x in order], [owner[x] for x in order], [gkind[x] for x in order]
+    t_coq = 0.0
     if terms:
         t_coq0 = time.time()
-        bad, errs = core.coq_shards("c06", HEADER, terms, "dcase", "bad cases", shard=12 if ctx.quick else 40)
-        t_coq = time.time() - t_coq0
+        bad, errs = core.coq_shards("c06", HEADER, terms, "anycase", "abad cases", shard=16 if ctx.quick else 40)
+        t_coq += time.time() - t_coq0
         errors += errs
         for idx, code in bad:
             i = owner[idx]
+            gname = gkind[idx]
             c, r = cases[i], impl[i]
             if code & 2:
                 why = explain(c, r) if len(failures) < 4 else ""
+                if gname == "cut":
+                    pt, _, _, where = cut_point(c, r)
+                    failures.append({
+                        "signature": core.sig(["cut-final", failure_class(c, r), pt.split("(")[1].split()[0].rstrip(")")]),
+                        "what": ("an animation ended by KeyboardInterrupt leaves the terminal in a state that violates the property: "
+                                 f"{where}; ((box), raised, (first token difference with the model, lengths), per start row (row, clauses "
+                                 "[col 0, attributes reset, cursor visible, not inside a sequence / chunked transmission, nothing outside the "
+                                 "region touched, cursor row = line below the region + displacement at the interrupt, interrupt inside the "
+                                 f"region, scrolling] — between frames the 9 clauses of the uninterrupted predicate —, row at the interrupt, final row)) = {why}) — {describe(c)}"),
+                        "replay": {"case": c, "cut": {k: v for k, v in r["cut"].items() if k != "part"}, "output": r.get("out", "")[:3000]}})
+                    continue
+                extra = ""
+                sigl = ["final-state", failure_class(c, r)]
+                if gname == "env":
+                    rt = c["real_term"]
+                    sigl.append("real-terminal " + rt.get("kind", "?"))
+                    extra = (f"on a REAL terminal whose window is {rt['window'][0]}x{rt['window'][1]} with {rt['env']} in the environment "
+                             f"(the library's get_terminal_size() returned {r.get('seen')}): ")
                 failures.append({
-                    "signature": core.sig(["final-state", failure_class(c, r)]),
-                    "what": ("the output of draw() violates the property ((box, raised, rule holds, (first token difference with the "
+                    "signature": core.sig(sigl),
+                    "what": (extra + "the output of draw() violates the property ((box, raised, rule holds, (first token difference with the "
                              f"model, lengths), per start row the clauses [row, col, sgr, visible, clean, scroll, inside-box, content, no-stale-placements]) = {why}) — {describe(c)}"),
-                    "replay": {"case": c, "output": r.get("out", "")[:3000]}})
+                    "replay": {"case": c, "seen_terminal_size": r.get("seen"), "output": r.get("out", "")[:3000]}})
             else:
                 mismatches.append({"case": c, "code": code, "explain": explain(c, r) if len(mismatches) < 3 else ""})
     return {
-        "corr_name": "Draw.draw_stream / Draw.old_draw_stream (model) == bytes written by Renderable.draw / BaseImage.draw on a pty or StringIO",
+        "corr_name": "Draw.draw_stream / Draw.old_draw_stream, in the environment's terminal size (DrawEnv.get_terminal_size), and DrawCut.anim_cut / old_anim_cut for animations ended by KeyboardInterrupt (models) == bytes written by Renderable.draw / BaseImage.draw on a pty or StringIO",
         "evaluations": len(cases),
         "distinct_nontrivial": len(distinct),
-        "rule": "corpus (exhaustive size-rule decision tables: new API {non-animated, animated renderable} x animate x check_size x "
+        "rule": "REAL-TERMINAL cases (the library's own get_terminal_size() on a pty whose window is set with TIOCSWINSZ, COLUMNS / LINES absent / equal / larger / smaller "
+                "/ only one / garbage / zero): grid of both APIs x {still, animated} x padded or rendered width / height at window-1, window, window+1 under each relation, "
+                "relative padding and pad_width / pad_height validation, + random draws of both APIs; ANIMATIONS ENDED BY KeyboardInterrupt: corpus of every write of a "
+                "3-frame animation (first frame, cursor moves, clearing, later frames) cut at 0 / the middle (inside SGR / CSI sequences, kitty key lists and payloads, iterm2 "
+                "payloads) / the end, and between frames (sleep), for text / SGR-block / erase-and-skip renderables (new API) and Block, Kitty > 0.25 LINES, Kitty <= 0.25 WHOLE, "
+                "ITerm2 konsole LINES, ITerm2 wezterm WHOLE images (old API), + random animations with random interruption points; then the corpus (exhaustive size-rule decision tables: new API {non-animated, animated renderable} x animate x check_size x "
                 "allow_scroll x padded height / width in {terminal-1, terminal, terminal+1} (96 cases); old API {still, animated image} x animate x "
                 "check_size x scroll x rendered height / width likewise + pad_width / pad_height at and above the terminal size (112 cases); "
                 "frame counts 1..4 x loops 1..3 x cache on/off x tty/non-tty with an exact bottom-heavy padding; one-line render, "
@@ -430,7 +730,10 @@ def run(ctx):
                         "_clear_frame_ overrides keep their documented contract (ClearOK)",
                         "the padded box fits the screen (otherwise only the token equality and the size rule are checked)",
                         "start state: clean protocol state, default attributes, cursor at the left margin (lm = 0)",
-                        "terminal conventions of lib/Term.v and lib/TermScroll.v (images hanging below the window are kept and scroll into view)"],
+                        "terminal conventions of lib/Term.v and lib/TermScroll.v (images hanging below the window are kept and scroll into view)",
+                        "real-terminal cases: the active terminal is the pty the driver opened (utils._tty_fd of a private copy of $VERIF_REPO's utils.py whose get_terminal_size is bound in every module that imported it by name); cell size, colours and terminal name stay the test-suite's stubs",
+                        "interrupted animations: the interrupt is a KeyboardInterrupt raised by the k-th non-empty stream write of the animation after j characters were delivered, or by a sleep between two frames (positions between two bytecodes of other code are C07's asyncfault dimension); the instrumented renderable's _handle_interrupted_draw_ writes CSI 0 m (HndOK); the final row is judged on Term.exec's virtual rows (a clamped cursor-down at the bottom margin of a real screen is not modelled: the scrolling clause is demanded only when the cursor was found on its resting row after a complete first frame)",
+                        "the new API's documented residue (cursor not hidden, a cursor-move write cut inside its CSI, no cursor-down following) may leave an open CSI (C07's new_ctl_cut_residue); never an open string"],
         "trusted": ["harness/lexer.py", "pty line discipline with OPOST off delivers the written bytes unchanged"],
-        "extra": {"seconds_impl": round(t_impl, 1), "seconds_coq_eval": round(t_coq, 1) if terms else 0},
+        "extra": {"seconds_impl": round(t_impl, 1), "seconds_coq_eval": round(t_coq, 1)},
     }
